@@ -63,6 +63,12 @@ def detect(seed_dir, props):
     if out.strip():
         return dict(error="/repo is not clean: " + out[:200])
     res = {}
+    # evidence files describe runs on the unchanged tree: keep them out of the way while a seed is applied
+    ev = os.path.join(VERIF, "evidence")
+    bak = os.path.join(VERIF, "build", "evidence.bak")
+    shutil.rmtree(bak, ignore_errors=True)
+    if os.path.isdir(ev):
+        shutil.copytree(ev, bak)
     rc, out = sh(["git", "apply", patch], cwd=REPO)
     if rc != 0:
         return dict(error="patch does not apply to /repo: " + out[-300:])
@@ -85,6 +91,9 @@ def detect(seed_dir, props):
             res[p] = dict(rc=rc, verdict=kind, detail=str(detail)[:300], wall=round(time.time() - t0, 1))
     finally:
         sh("git checkout -q -- . && git clean -fdq -- src tests python scripts", cwd=REPO)
+        if os.path.isdir(bak):
+            shutil.rmtree(ev, ignore_errors=True)
+            shutil.copytree(bak, ev)
         # rebuild artefacts against the clean tree are refreshed by the next check run
     return res
 
